@@ -24,12 +24,13 @@ rsync -a --delete --exclude target $BOX/sim-src/sim/ $BOX/sim/
 sed -i "s#path = \"/repo\"#path = \"$BOX/repo\"#" $BOX/sim/Cargo.toml
 cp /verif/known_findings.json $BOX/verif/
 export VERIF_DIR=$BOX/verif CARGO_NET_OFFLINE=true
+ulimit -v 30000000   # a patch must not be able to exhaust memory (e.g. a compiler blow-up)
 for p in $PROFILES; do
-  if [ $p = rel ]; then ( cd $BOX/sim && CARGO_TARGET_DIR=target/rel cargo build --release --offline --quiet 2>&1 | grep -E "^error" -A8 | head -30 ); BIN=$BOX/sim/target/rel/release/ohsim
-  else ( cd $BOX/sim && CARGO_TARGET_DIR=target/dbg cargo build --offline --quiet 2>&1 | grep -E "^error" -A8 | head -30 ); BIN=$BOX/sim/target/dbg/debug/ohsim; fi
+  if [ $p = rel ]; then ( cd $BOX/sim && CARGO_TARGET_DIR=target/rel timeout 900 cargo build --release --offline --quiet 2>&1 | grep -E "^error" -A8 | head -30 ); BIN=$BOX/sim/target/rel/release/ohsim
+  else ( cd $BOX/sim && CARGO_TARGET_DIR=target/dbg timeout 900 cargo build --offline --quiet 2>&1 | grep -E "^error" -A8 | head -30 ); BIN=$BOX/sim/target/dbg/debug/ohsim; fi
   [ -x $BIN ] || { echo "BUILD FAILED ($p)"; continue; }
   for id in "$@"; do
-    out="$($BIN check $id --tier $TIER --part-only 2>&1)"; rc=$?
+    out="$(timeout 1200 $BIN check $id --tier $TIER --part-only 2>&1)"; rc=$?
     echo "== $id $p exit=$rc  $(echo "$out" | grep -E '^minimised: ' | cut -c1-260)"
     [ -n "${VERBOSE:-}" ] && echo "$out" | tail -8 | cut -c1-1500
   done
